@@ -18,7 +18,7 @@ RULE = ('states: every sector-consistent layout (L, qd, bond profile, charges) w
         '(product, flat GHZ-type, dyadic staircase; gauge-scrambled, zero-padded bonds) x tolerance set intersected with [0,1/L) x '
         'sweep mode; vectors for from_vector: d x n x kinds x tolerances; non-trivial = state with a bond of Schmidt rank >= 2')
 BUDGET = {'quick': 400, 'thorough': 3600}
-TOLS = [0.0, 2.0 ** -4, 2.0 ** -3, 0.1, 0.2, 0.3]
+TOLS = [0.0, 1e-20, 2.0 ** -4, 2.0 ** -3, 0.1, 0.2, 0.3]
 
 
 def schmidt(v, d, L, k):
@@ -31,7 +31,8 @@ def judge_compress(ctx, psi, v0, d, L, tol, mode):
     # comparisons are relative to the size of the state (no absolute floor): rounding level ~ product of the tensor norms
     tscale = float(np.prod([np.linalg.norm(a) for a in psi.A]))
     eps1 = 1e-10 * nrm0 + 1e-12 * tscale
-    eps2 = 1e-10 * nrm0 ** 2 + 1e-12 * tscale ** 2
+    eps2 = 1e-12 * nrm0 ** 2 + 1e-14 * tscale ** 2        # for squared quantities of size tol * nrm0^2
+    eps2b = eps1 ** 2                                     # slack of the error bound: the bound itself may be 0
     res = psi.compress(tol, mode=mode)
     ctx.calls += 1
     if not ctx.check(isinstance(res, tuple) and len(res) == 2, 'returns_norm_and_scale', type(res)):
@@ -53,7 +54,7 @@ def judge_compress(ctx, psi, v0, d, L, tol, mode):
     err2 = float(np.sum(np.abs(nrm * scale * v1 - v0) ** 2))
     ref2 = nrm0 ** 2 * (1 - scale ** 2)
     ctx.check(abs(err2 - ref2) <= eps2, 'error_identity', f'err2={err2:.6e} nrm^2(1-scale^2)={ref2:.6e}')
-    ctx.check(err2 <= nrm0 ** 2 * L * tol + eps2, 'error_bound', f'{err2} > {nrm0**2 * L * tol}')
+    ctx.check(err2 <= nrm0 ** 2 * L * tol + eps2b, 'error_bound', f'{err2} > {nrm0**2 * L * tol}')
     if tol == 0:
         e0 = float(np.max(np.abs(nrm * scale * v1 - v0)))
         ctx.check(e0 <= eps1, 'zero_tolerance_exact', f'err={e0:.3e} norm={nrm0:.3e}')
@@ -116,6 +117,11 @@ def designed_state(rng, kind, L, d, Dpad):
         w = [0.5 ** (j + 1) for j in range(K)]
         w[-1] = w[-2] if K >= 2 else 1.0     # 1/2, 1/4, ..., 2^-(K-1), 2^-(K-1)  (sums to one)
         c = np.sqrt(np.array(w))
+    elif kind == 'wide':
+        # Schmidt coefficients 1, 2^-15, 2^-30, ...: weights down to 1e-18 and below, far under machine epsilon relative to the total
+        K = d
+        c = 2.0 ** (-15.0 * np.arange(K))
+        c = c / np.linalg.norm(c)
     else:
         raise ValueError(kind)
     D = max(K, Dpad)
@@ -144,7 +150,7 @@ def designed_state(rng, kind, L, d, Dpad):
 
 def _designed_cases(tier):
     Ls = [2, 3, 4] if tier == 'quick' else [2, 3, 4, 5]
-    for kind in ('product', 'flat', 'staircase'):
+    for kind in ('product', 'flat', 'staircase', 'wide'):
         for L in Ls:
             for d in (2, 3, 4):
                 if d ** L > 1024:
@@ -177,7 +183,7 @@ def run_designed_case(case, ctx):
 def _vector_cases(tier):
     for d in (2, 3):
         for n in (1, 2, 3, 4):
-            for vk in ('complex', 'real', 'product', 'flat', 'staircase', 'tiny', 'large'):
+            for vk in ('complex', 'real', 'product', 'flat', 'staircase', 'wide', 'tiny', 'large'):
                 yield ['vector', d, n, vk]
 
 
@@ -193,7 +199,7 @@ def run_vector_case(case, ctx):
     nv = float(np.linalg.norm(v))
     ctx.cls('from_vector:' + vk)
     ctx.nontrivial = n >= 2
-    for tol in TOLS + [0.25, 0.5, 0.9]:
+    for tol in TOLS + [1e-30, 0.25, 0.5, 0.9]:
         v_in = v.copy()
         m = MPS.from_vector(d, n, v_in, tol)
         ctx.calls += 1
@@ -203,7 +209,7 @@ def run_vector_case(case, ctx):
         w = dense.mps_to_vector(m.A)
         ctx.obs(w)
         err2 = float(np.sum(np.abs(w - v) ** 2))
-        ctx.check(err2 <= n * tol * nv ** 2 + 1e-10 * nv ** 2, 'from_vector_relative_error_bound', f'tol={tol} err2={err2} bound={n * tol * nv**2}')
+        ctx.check(err2 <= n * tol * nv ** 2 + (1e-10 * nv) ** 2, 'from_vector_relative_error_bound', f'tol={tol} err2={err2} bound={n * tol * nv**2}')
         if tol == 0:
             ctx.close(w / nv, v / nv, 'from_vector_zero_tolerance_exact')
         if ctx.fails:
@@ -252,8 +258,8 @@ def spaces(tier, seed):
     hist = hist_probe.probe_space('history_states', ['xxz3', 'ising3', 'fh2', 'bh3', 'mol4'], 2 if tier == 'quick' else 3, _history_probe)
     return sect + [hist] + [
         Space('designed_spectra', core.chunked(_designed_cases(tier), 2), run_case=run_designed_case, sig=sig,
-              bounds={'kinds': ['product', 'flat', 'staircase'], 'L': [2, 3, 4], 'd': [2, 3, 4], 'zero_padding': [0, 1],
+              bounds={'kinds': ['product', 'flat', 'staircase', 'wide'], 'L': [2, 3, 4], 'd': [2, 3, 4], 'zero_padding': [0, 1],
                       'tols': 'TOLS + {1/4, 1/8, 2^-(d-1), 1/d, 0.2499, 0.2501} within [0,1/L)'}),
         Space('from_vector', core.chunked(_vector_cases(tier), 2), run_case=run_vector_case, sig=sig,
-              bounds={'d': [2, 3], 'n': [1, 2, 3, 4], 'kinds': ['complex', 'real', 'product', 'flat', 'staircase', 'tiny', 'large'], 'tols': TOLS + [0.25, 0.5, 0.9]}),
+              bounds={'d': [2, 3], 'n': [1, 2, 3, 4], 'kinds': ['complex', 'real', 'product', 'flat', 'staircase', 'wide', 'tiny', 'large'], 'tols': TOLS + [1e-30, 0.25, 0.5, 0.9]}),
     ]
